@@ -448,7 +448,9 @@ def driver_line(case, e):
 # generator
 # ----------------------------------------------------------------------------
 def gen_problem(rng, klass=None):
-    klass = klass or rng.choice(["converge", "converge", "tol_fail", "limit_fail", "raise", "far"])
+    klass = klass or rng.choice(["converge", "converge", "tol_fail", "limit_fail", "raise", "far", "edge", "edge"])
+    if klass == "edge":
+        return gen_edge_problem(rng)
     nk = rng.randint(1, 4)
     nt = rng.randint(1, 5)
     kind = rng.choice(["linear", "linear", "quad", "trig"]) if klass != "tol_fail" else rng.choice(["incons", "quad"])
@@ -486,6 +488,24 @@ def gen_problem(rng, klass=None):
         rad = rng.choice([0.05, 0.2, 0.5, 1.0, 2.0])
         spec["raise_region"] = [0, knobs[0]["init"] - rad, knobs[0]["init"] + rad]
     return spec
+
+
+def gen_edge_problem(rng):
+    """the solution lies just beyond a limit, the Jacobian step is coarse and the tolerance loose: the probes of the
+    finite-difference Jacobian may be within tolerance while the iterate, blocked at the limit, is not"""
+    nk = rng.randint(1, 2)
+    tol = rng.choice([0.02, 0.05, 0.1])
+    step = rng.choice([0.005, 0.01, 0.02, 0.05])
+    slope = rng.choice([1.0, 1.0, 2.0])
+    knobs, A, b = [], [], []
+    for i in range(nk):
+        hi = rng.choice([0.9, 0.975, 1.5])
+        beyond = hi + (tol / slope) * rng.choice([1.02, 1.1, 1.25, 1.5])      # the matching value is outside the limit
+        knobs.append({"init": round(rng.uniform(0.0, hi * 0.9), 3), "limits": [0.0, hi], "step": step, "tag": "a"})
+        A.append([slope if j == i else 0.0 for j in range(nk)])
+        b.append(slope * beyond)
+    return {"class": "edge", "kind": "linear", "nk": nk, "A": A, "b": b, "knobs": knobs,
+            "targets": [{"tol": tol, "tag": "p"} for _ in range(nk)], "n_steps_max": rng.choice([5, 10, 25])}
 
 
 def gen_calls(rng, spec, family):
